@@ -70,6 +70,26 @@ type c02Reuse struct {
 	buf []byte
 }
 
+// c02Held keeps the most recent successfully decoded messages of a worker together with the reference reading of their frames;
+// after every further decode the oldest one is compared again: a decoded message must stay what it was.
+type c02Held struct {
+	ms []*jt808.JTMessage
+	fs []*ref.Frame
+}
+
+func (h *c02Held) push(m *jt808.JTMessage, f *ref.Frame) string {
+	h.ms, h.fs = append(h.ms, m), append(h.fs, f)
+	if len(h.ms) <= 6 {
+		return ""
+	}
+	m0, f0 := h.ms[0], h.fs[0]
+	h.ms, h.fs = h.ms[1:], h.fs[1:]
+	if bad := c02Compare(m0, f0); bad != "" {
+		return bad + " (message decoded correctly at first, changed after later Decode calls)"
+	}
+	return ""
+}
+
 // c02CheckReused decodes b from the start of the reused buffer into the reused object; the outcome must be the one the bytes
 // prescribe, whatever was decoded before.
 func c02CheckReused(b []byte, st *c02Reuse) string {
@@ -273,6 +293,7 @@ func c02Worker(c *core.Collector, x *Ctx) {
 	core.ParallelFor(nrand/chunk, ncpu(), func(ci int) {
 		r := core.NewRand(c.Seed, "c02r", uint64(ci))
 		st := &c02Reuse{m: jt808.NewJTMessage(), buf: make([]byte, 4200)}
+		held := &c02Held{}
 		var prevE []byte
 		for k := 0; k < chunk; k++ {
 			v := r.Bool()
@@ -321,6 +342,18 @@ func c02Worker(c *core.Collector, x *Ctx) {
 				}
 				p2[phoneOff+r.Intn(n)] ^= []byte{0x01, 0x10, 0x80}[r.Intn(3)]
 				prevE = ref.Escape(c02Fix(p2))
+			}
+			// and with fresh objects and fresh buffers whose results are HELD: six decodes later each must still read the same
+			for _, fr2 := range [][]byte{e, prevE} {
+				if fh, okh := ref.Validate(fr2); okh && !interior7e(fr2) {
+					mh := jt808.NewJTMessage()
+					if mh.Decode(append([]byte{}, fr2...)) == nil {
+						if badh := held.push(mh, fh); badh != "" {
+							c.Violate("differential|"+badh+"|held", "a decoded message re-checked after later decodes vs reference validator: "+badh, map[string]any{"kind": "c02", "input": core.Hex(fr2), "gen": "held"})
+						}
+						c.Count("decoded_messages_rechecked_after_later_decodes", 1)
+					}
+				}
 			}
 			for _, fr2 := range [][]byte{prevE, e} {
 				var badr string
@@ -390,6 +423,14 @@ func c02Worker(c *core.Collector, x *Ctx) {
 					e2 = append(e2[:len(e2)-1], 0x7d, 0x7e)
 					check(e2, "bare7d-checksum", true)
 					c.Count("bare7d_cases", 1)
+					if fh, okh := ref.Validate(e2); okh {
+						mh := jt808.NewJTMessage()
+						if mh.Decode(append([]byte{}, e2...)) == nil {
+							if badh := held.push(mh, fh); badh != "" {
+								c.Violate("differential|"+badh+"|held", "a decoded message (raw 0x7D check code) re-checked after later decodes vs reference validator: "+badh, map[string]any{"kind": "c02", "input": core.Hex(e2), "gen": "held"})
+							}
+						}
+					}
 				}
 			}
 			// unescaped 0x7D bytes: a payload whose last one, two or three body bytes and whose checksum are all 0x7D, with every
